@@ -19,6 +19,21 @@ type Server struct {
 	mu    sync.Mutex
 	conns map[*ServerConn]struct{}
 	down  bool
+	stall chan struct{}
+}
+
+// SetStall makes the server stop reading from its connections until the
+// channel is closed (nil = read normally): a server that is alive but busy.
+func (s *Server) SetStall(ch chan struct{}) {
+	s.mu.Lock()
+	s.stall = ch
+	s.mu.Unlock()
+}
+
+func (s *Server) stallCh() chan struct{} {
+	s.mu.Lock()
+	defer s.mu.Unlock()
+	return s.stall
 }
 
 // ServerConn is one accepted connection.
@@ -123,6 +138,9 @@ func (s *Server) serve(sc *ServerConn) {
 		Info: fmt.Sprintf("service=%s user=%s codec=%s compressor=%s", hdr.GetServiceName(), hdr.GetUserInfo().GetEffectiveUser(),
 			hdr.GetCellBlockCodecClass(), hdr.GetCellBlockCompressorClass())})
 	for {
+		if ch := s.stallCh(); ch != nil {
+			<-ch
+		}
 		f, err := ReadRequest(br)
 		if err != nil {
 			if m, ok := err.(ErrMalformed); ok {
